@@ -97,7 +97,14 @@ UNITS.append(dict(name="c14_rs_segment_walk", template="C14/rs_walk.c", mode="pl
                   functions=["ompl::base::ReedsSheppStateSpace::interpolate(from, path, t, state)"],
                   canaries=[dict(name="reversing_segment_not_consumed", where="body:rs_walk", rx=r"seg \+= v;", repl=""), dict(name="backward_step_unclamped", where="body:rs_walk", rx=r"v = FMAX\(-seg, P_LEN\[i\]\);", repl="v = P_LEN[i];")]))
 
-ASSUMPTIONS = ["Reeds-Shepp candidate lengths range over 8-bit ranks: the families only compare lengths, so every configuration of non-NaN lengths is order-isomorphic to one of these (WLOG, not machine-checked)", "the Reeds-Shepp families enumerate 8 + 8 + 8 + 16 + 4 = 44 candidate words (count taken from the construction: words x timeflip/reflect, CCC and CCSC also backwards)", "word lengths are non-NaN doubles ('no solution' is a huge finite length, as the word solvers return)", "radius * x is a trusted external operation (recorded)", "DUBINS_EPS = 1e-6 as in the source"]
+# ---- the quadrant table getDubinsClass ----
+C_RULES = [(r"assert\((?:[^;])*?\);", "", 3), (r"\(DubinsClass\)", "(int)", 1), (r"int row\(0\), column\(0\);", "int row = 0, column = 0;", 1)]
+CLASS_SRC = [dict(name="getDubinsClass", file=DUB, sig=r"DubinsClass getDubinsClass\(const double alpha, const double beta\)", rules=C_RULES, loops={})]
+UNITS.append(dict(name="c14_getDubinsClass", template="C14/dubins_class.c", mode="plain", entry="h_class", sources=CLASS_SRC, flags=FLAGS, unwind=3, backend="minisat", timeout=300, level="proof",
+                  functions=["getDubinsClass (DubinsStateSpace.cpp)"], canaries=[dict(name="boundary_in_no_quadrant", where="body:getDubinsClass", rx=r"halfpi < alpha && alpha <= onepi", repl="halfpi < alpha && alpha < onepi"),
+                                                                                 dict(name="rows_and_columns_swapped", where="body:getDubinsClass", rx=r"\(column - 1\) \+ 4 \* \(row - 1\)\);", repl="(row - 1) + 4 * (column - 1));")]))
+
+ASSUMPTIONS = ["onepi / halfpi / twopi are the doubles nearest to pi, pi/2, 2 pi (as boost::math::constants yields)", "Reeds-Shepp candidate lengths range over 8-bit ranks: the families only compare lengths, so every configuration of non-NaN lengths is order-isomorphic to one of these (WLOG, not machine-checked)", "the Reeds-Shepp families enumerate 8 + 8 + 8 + 16 + 4 = 44 candidate words (count taken from the construction: words x timeflip/reflect, CCC and CCSC also backwards)", "word lengths are non-NaN doubles ('no solution' is a huge finite length, as the word solvers return)", "radius * x is a trusted external operation (recorded)", "DUBINS_EPS = 1e-6 as in the source"]
 TRUSTED = ["extraction rewrite table of units/C14.py", "stubs in units/C14/*.c", "CBMC 6.11 + minisat"]
 NOT_COVERED = ["every trigonometric clause: the six word solvers, the classification tables for long paths (dubinsClassification), mod2pi, curve integration in interpolate, 'ends exactly at the target pose' for 0 < t < 1 ... t -> 1, arc length = reported distance, distance >= straight line, Reeds-Shepp <= Dubins, prefix optimality",
                "Reeds-Shepp word formulas and interpolation"]
